@@ -636,7 +636,22 @@ func genStubOrigin(r *Run, g *originGen) *stubOrigin {
 				sg.first[ti], sg.count[ti] = f, c
 			}
 			if hasPDT {
-				t := pdtBase.Add(time.Duration(i) * segDur)
+				// PROGRAM-DATE-TIME is the wall-clock time of the segment's first sample of the leading track
+				// (the video track if any, else the first), consistent across segments and streams
+				li := 0
+				for ti, t := range st.tracks {
+					if t.video {
+						li = ti
+						break
+					}
+				}
+				lt := st.tracks[li]
+				off := time.Duration(i) * segDur
+				if sg.count[li] > 0 {
+					sec := float64(lt.units[sg.first[li]].dts)/float64(lt.scale) - baseSec
+					off = time.Duration(sec * float64(time.Second))
+				}
+				t := pdtBase.Add(off)
 				sg.pdt = &t
 			}
 			st.segs = append(st.segs, sg)
